@@ -365,6 +365,12 @@ class Program:
                 return frozenset(ce(e) for e in node.elts)
             except TypeError as e:
                 raise NotConst(str(e))
+        if isinstance(node, ast.Subscript) and not isinstance(node.slice, ast.Slice):
+            base, key = ce(node.value), ce(node.slice)
+            try:
+                return base[key]
+            except (KeyError, IndexError, TypeError) as e:
+                raise NotConst("subscript: %s" % e)
         if isinstance(node, ast.Call):
             fn = node.func
             args = [ce(a) for a in node.args]
